@@ -1328,6 +1328,87 @@ def callshape_program(rng):
     return {"globals": globals_, "procs": procs}, feats
 
 
+def flow_program(rng):
+    """Boundary stream for control reaching (or not reaching) the END of a procedure: procedures and functions whose last
+    statement is an `if` / nested `if` / `while` with `stop`, `return` or an exit call in some branches and `skip` or plain
+    statements in the others ("guard" / "assert" procedures), called with actuals that take every path; every procedure is
+    followed in the source by another one (so that falling off the end runs into a prologue) and `main` prints a marker
+    after every call."""
+    r = rng
+    procs = []
+    calls = []
+    nguard = 1 + r.below(3)
+
+    def put(ch):
+        return ["syscall", 1, [lit(ch), num(0)]]
+
+    def leaf(kind):
+        if kind == "stop":
+            return ["stop"]
+        if kind == "exit":
+            return ["syscall", 0, [lit(r.below(200))]]
+        if kind == "skip":
+            return ["skip"]
+        if kind == "put":
+            return put(97 + r.below(26))
+        return ["seq", [put(65 + r.below(26)), ["stop"] if kind == "putstop" else ["skip"]]]
+
+    for i in range(nguard):
+        name = "g%d" % i
+        cond = ["bin", r.choice(["eq", "ne", "ls", "ge"]), ["name", "x"], lit(r.choice([0, 1, 5, 113])), False]
+        a, b = r.choice([("skip", "stop"), ("stop", "skip"), ("skip", "exit"), ("put", "stop"), ("putstop", "skip"),
+                         ("skip", "putstop"), ("stop", "put"), ("exit", "skip")])
+        tail = ["if", cond, leaf(a), leaf(b)]
+        k = r.below(5)
+        if k == 0:      # nested: the completing path is two levels down
+            tail = ["if", ["bin", "ls", ["name", "x"], lit(50), False], tail, leaf(r.choice(["skip", "stop"]))]
+        elif k == 1:    # a loop whose body stops on some iteration
+            tail = ["seq", [["assign", "n", ["name", "x"]],
+                            ["while", ["bin", "ls", ["name", "n"], lit(3), False],
+                             ["seq", [["if", ["bin", "eq", ["name", "n"], lit(2), False], leaf(r.choice(["stop", "skip"])), ["skip"]],
+                                      ["assign", "n", ["bin", "plus", ["name", "n"], num(1), False]]]]]]]
+        body = tail if r.chance(1, 2) else ["seq", [put(48 + i), tail]]
+        if r.chance(1, 4):
+            # a function: every completing path returns
+            def fix(st):
+                if st[0] == "skip":
+                    return ["ret", ["name", "x"]]
+                if st[0] == "if":
+                    return ["if", st[1], fix(st[2]), fix(st[3])]
+                if st[0] == "seq":
+                    return ["seq", st[1][:-1] + [fix(st[1][-1])]]
+                if st[0] == "syscall" and st[1] == 1:
+                    return ["seq", [st, ["ret", ["name", "x"]]]]
+                return st
+            fb = fix(tail if tail[0] == "if" else ["if", cond, leaf(a), leaf(b)])
+            procs.append({"kind": "func", "name": name, "formals": [["val", "x"]], "locals": [], "body": fb})
+            for arg in ([0, 1, 2, 5, 49, 50, 113, 114][r.below(4):][:3]):
+                calls.append(["syscall", 1, [["bin", "plus", ["call", name, [lit(arg)]], num(1), False], num(0)]])
+        else:
+            procs.append({"kind": "proc", "name": name, "formals": [["val", "x"]], "locals": [["var", "n"]], "body": body})
+            for arg in ([0, 1, 2, 5, 49, 50, 113, 114][r.below(3):][:3]):
+                calls.append(["call", name, [lit(arg)]])
+        # the procedure that follows in the image
+        procs.append({"kind": "proc", "name": "after%d" % i, "formals": [], "locals": [], "body": put(33 + i)})
+    body = []
+    inp = r.chance(1, 2)
+    if inp:
+        body.append(["assign", "c", ["syscall", 2, [num(0)]]])
+    # one or two calls only: a call that stops the program hides every later one
+    r.shuffle(calls)
+    for k, c in enumerate(calls[:1 + r.below(2)]):
+        if inp and c[0] == "call" and r.chance(1, 2):
+            c = ["call", c[1], [["name", "c"]]]
+        body += [c, put(46)]
+    body.append(put(10))
+    main = {"kind": "proc", "name": "main", "formals": [], "locals": [["var", "c"]] if inp else [], "body": ["seq", body]}
+    if r.chance(1, 2):
+        procs.append(main)
+    else:
+        procs.insert(r.below(len(procs) + 1), main)
+    return {"globals": [], "procs": procs}, Counter({"stream:flow": 1})
+
+
 def logic_program(rng):
     """Boundary stream for the logical operators with one compile-time-constant operand: `C op E` and
     `E op C` for op in {and, or}, C a constant-zero / constant-one form (0, 1, false, true, a val equal
